@@ -191,7 +191,7 @@ func sweepsFor(d int) int {
 	case d <= 22:
 		q, th = 0, 12
 	case d <= 24:
-		q, th = 0, 2
+		q, th = 0, 4
 	default:
 		q, th = 0, 2
 	}
@@ -788,7 +788,7 @@ func partB(t *testing.T, rec *ev.Recorder) {
 	maxD := ev.Pick(18, 20)
 	batch := workers() * 2
 	gen := genPowCase(maxD)
-	ev.RapidCheck(t, 32, 1200, func(t *rapid.T) {
+	ev.RapidCheck(t, 24, 800, func(t *rapid.T) {
 		cs := make([]powCase, batch)
 		for i := range cs {
 			cs[i] = gen.Draw(t, fmt.Sprintf("case%d", i))
